@@ -138,6 +138,44 @@ func TestVerif_C02(t *testing.T) {
 	nSeqs := vk.N(20_000, 400_000)
 	const chunk = 1000
 
+	// (d, first half) matchers that live long, like those of a subscription that stays open for
+	// days: built before everything else, judged once now and again at the very end, after
+	// the rest of this run and several thousand further distinct value lists have been compiled
+	type c02Old struct {
+		f  *mocrelay.ReqFilter
+		m  interface{ Match(*mocrelay.Event) bool }
+		es []*mocrelay.Event
+	}
+	var olds []c02Old
+	judgeOlds := func(when string) {
+		for _, o := range olds {
+			for _, e := range o.es {
+				rep.Eval(1)
+				if got, want := o.m.Match(e), vk.RefMatch(o.f, e); got != want {
+					rep.Violation("match/long-lived-matcher", fmt.Sprintf("Match=%v, NIP-01 predicate=%v on a matcher built at the start, judged %s", got, want, when),
+						map[string]any{"filter": o.f, "event": e})
+					return
+				}
+				rep.Count("long_lived_matcher_judgements", 1)
+			}
+		}
+	}
+	{
+		r := vk.RNG("C02/old", 0)
+		for len(olds) < 80 {
+			f := c02Filter(r, false)
+			if f.IDs == nil && f.Authors == nil && f.Tags == nil {
+				continue
+			}
+			o := c02Old{f: f, m: mocrelay.NewReqFilterMatcher(f)}
+			for k := 0; k < 40; k++ {
+				o.es = append(o.es, c02Event(r))
+			}
+			olds = append(olds, o)
+		}
+		judgeOlds("right away")
+	}
+
 	// (a) single filter Match, and filter-list Match
 	vk.Parallel(nPairs/chunk, func(ci int) {
 		r := vk.RNG("C02/pairs", ci)
@@ -324,6 +362,15 @@ func TestVerif_C02(t *testing.T) {
 		rep.Count("matchers_shared_by_4_goroutines", 1)
 		rep.Eval(240)
 	})
+
+	// (d, second half)
+	for i := 0; i < 6000; i++ {
+		v := vk.HexOf(fmt.Sprint("c02 churn ", i))
+		mocrelay.NewReqFilterMatcher(&mocrelay.ReqFilter{IDs: []string{v}, Authors: []string{v, vk.FakePub(1000 + i)}, Tags: map[string][]string{"t": {"churn-" + fmt.Sprint(i)}, "e": {v}}})
+		mocrelay.NewReqFiltersEventLimitMatcher([]*mocrelay.ReqFilter{{Authors: []string{vk.FakePub(9000 + i)}, Limit: vk.Ptr(int64(1))}})
+	}
+	rep.Count("value_lists_compiled_before_the_last_judgement", 6000*5)
+	judgeOlds("after the whole run")
 
 	rep.Require(rep.Counter("pairs_matching") > int64(nPairs/50), "too few matching pairs")
 	rep.Require(rep.Counter("limit_sequences") >= int64(nSeqs/100*100), "limit sequences not run")
